@@ -134,7 +134,57 @@ def free_consts(e, acc=None):
     return acc
 
 
+_IOF = {}
+
+
 def _int_only_formula(h):
+    key = h.get_id()
+    hit = _IOF.get(key)
+    if hit is not None and hit[0].eq(h): return hit[1]
+    r = _int_only_formula0(h)
+    _IOF[key] = (h, r)
+    return r
+
+
+_SYMS = {}
+
+
+def nonint_syms(h):
+    """uninterpreted symbols of a formula that are not Int constants (arrays, reals, booleans, functions)"""
+    key = h.get_id()
+    hit = _SYMS.get(key)
+    if hit is not None and hit[0].eq(h): return hit[1]
+    out = set()
+    for s_ in subterms([h]):
+        if z3.is_app(s_) and s_.decl().kind() == z3.Z3_OP_UNINTERPRETED:
+            if s_.num_args() == 0:
+                if s_.sort().kind() == z3.Z3_ARRAY_SORT: out.add('@' + s_.decl().name())
+                elif s_.sort().kind() != z3.Z3_INT_SORT: out.add(s_.decl().name())
+            else:
+                out.add('f:' + s_.decl().name())
+    _SYMS[key] = (h, out)
+    return out
+
+
+def coarse_relevant(hyps, goal, rounds=4):
+    """cheap cone of influence before elimination: drop hypotheses about arrays/reals unrelated to the goal"""
+    syms = set(nonint_syms(goal))
+    if not syms: return list(hyps)
+    hs = [(h, nonint_syms(h)) for h in hyps]
+    # only hypotheses that talk about arrays can be dropped (scalar path conditions may decide integer cases)
+    keep = [not any(x.startswith('@') for x in sy) for (h, sy) in hs]
+    for i, k in enumerate(keep):
+        if k: syms |= hs[i][1]
+    for _ in range(rounds):
+        changed = False
+        for i, (h, sy) in enumerate(hs):
+            if not keep[i] and (sy & syms):
+                keep[i] = True; syms |= sy; changed = True
+        if not changed: break
+    return [h for (h, _), k in zip(hs, keep) if k]
+
+
+def _int_only_formula0(h):
     for s_ in subterms([h]):
         k = s_.sort().kind()
         if k == z3.Z3_REAL_SORT or k == z3.Z3_ARRAY_SORT: return False
@@ -426,6 +476,25 @@ class IntAbs:
         return e.decl()(*nc)
 
 
+def decide_int_atoms(fs, int_h, limit=400):
+    """replace integer atoms that the integer hypotheses decide by true/false (prunes ite branches)"""
+    ia = IntAbs()
+    for f in fs: ia.ab(f)
+    if not ia.atoms: return fs
+    s = z3.Solver(); s.set('timeout', 150)
+    for h in int_h: s.add(h)
+    if s.check() == z3.unsat: return fs + [z3.BoolVal(False)]
+    subs = []
+    for n_, (b, a) in enumerate(list(ia.atoms.values())[:limit]):
+        s.push(); s.add(z3.Not(a)); r = s.check(); s.pop()
+        if r == z3.unsat: subs.append((a, z3.BoolVal(True))); continue
+        s.push(); s.add(a); r = s.check(); s.pop()
+        if r == z3.unsat: subs.append((a, z3.BoolVal(False)))
+    if not subs: return fs
+    out = [z3.simplify(z3.substitute(f, *subs)) for f in fs]
+    return [f for f in out if not z3.is_true(f)]
+
+
 def lazy_combination(fs, budget):
     """fs: quantifier-free, array-free formulas over Int and Real.  returns 'unsat' | 'sat' | 'unknown'"""
     ia = IntAbs()
@@ -554,7 +623,7 @@ def discharge(hyps, goal, budget=20.0, skolems=(), want_model=True):
         insts = instantiate(quants, plain, goal, extra_terms=skolems, goal_only=(level == 0), rounds=(1 if level == 0 else 2))
         last = (level == 1)
         # Tier B: eliminate quantifiers, arrays, UFs
-        allh = plain + insts
+        allh = coarse_relevant(plain + insts, goal)
         int_h = [h for h in allh if _int_only_formula(h)]
         oracle = IntOracle(int_h)
         el = Elim(oracle)
@@ -563,14 +632,18 @@ def discharge(hyps, goal, budget=20.0, skolems=(), want_model=True):
         if el.ok:
             cong = el.congruence()
             kept = real_relevant(rest + cong, gq)
-            fs = [z3.simplify(f) for f in kept + int_h + [gq]]
-            fs = [f for f in fs if not z3.is_true(f)]
-            log.append(('B:size', len(fs), len(insts)))
-            # B1: relaxed to reals, nlsat
-            rl = Relax()
-            rfs = [rl.rx(f) for f in fs]
+            core = [f for f in (z3.simplify(f) for f in kept + [gq]) if not z3.is_true(f)]
+            ints = [f for f in (z3.simplify(f) for f in int_h) if not z3.is_true(f)]
             verdict_b1 = None
-            if rl.ok:
+            for attempt in (0, 1):
+                if attempt == 1:
+                    core = decide_int_atoms(core, int_h)
+                fs = core + ints
+                if attempt == 0: log.append(('B:size', len(fs), len(insts)))
+                # B1: relaxed to reals, nlsat
+                rl = Relax()
+                rfs = [rl.rx(f) for f in fs]
+                if not rl.ok: break
                 s = z3.Tactic('qfnra-nlsat').solver()
                 for f in rfs: s.add(f)
                 r, dt = _check(s, budget * 1000)
@@ -580,6 +653,7 @@ def discharge(hyps, goal, budget=20.0, skolems=(), want_model=True):
                 has_int = any(c.sort().kind() == z3.Z3_INT_SORT for f in fs for c in free_consts(f).values() if isinstance(c, z3.ExprRef))
                 if r == 'sat' and not has_int and last:
                     return done('failed', 'z3-nlsat', model_summary(s.model()) if want_model else None)
+                if not has_int: break
             # B1b: exact combination (nlsat for the reals, LIA for the index atoms)
             if verdict_b1 != 'unsat':
                 r, its = lazy_combination(fs, budget if last else budget / 2)
